@@ -12,3 +12,4 @@ import Hifi.Props.C16
 import Hifi.Props.C20
 import Hifi.Props.C07
 import Hifi.Props.C17
+import Hifi.Props.C08
